@@ -5,6 +5,7 @@ pub mod c03b;
 pub mod c04;
 pub mod c06;
 pub mod c07;
+pub mod c08;
 pub mod c10;
 pub mod c11;
 pub mod c12;
@@ -43,5 +44,6 @@ pub const REGISTRY: &[Entry] = &[
     Entry { id: "C10", level: "exploration", main: c10::main, replay: c10::replay },
     Entry { id: "C14", level: "exploration", main: c14::main, replay: c14::replay },
     Entry { id: "C15", level: "exploration", main: c15::main, replay: c15::replay },
+    Entry { id: "C08", level: "exploration", main: c08::main, replay: c08::replay },
     Entry { id: "C11", level: "exploration", main: c11::main, replay: c11::replay },
 ];
